@@ -197,6 +197,8 @@ func init() {
 			}
 			return i.ts.UF(name, ts)
 		},
+		"vxPause": func(fr *frame, args []value) value { return nil },
+		"vxProcs": func(fr *frame, args []value) value { return nil },
 		"vxQuiesce": func(fr *frame, args []value) value {
 			if fr.i.sched == nil {
 				return 0
